@@ -12,7 +12,7 @@ pub const RULE_POOL: [&str; 40] = [
     "{p,t} > {b}", "% > a",
 ];
 /// two fail at parse (`p#a`, `ˈ`), the rest parse; which ones fail at apply depends on the rule
-pub const WORD_POOL: [&str; 10] = ["pa", "ta.pi", "ˈpa.taˌki", "a", "t", "paː", "ła.ta", "p#a", "ˈ", "sa.pa51"];
+pub const WORD_POOL: [&str; 11] = ["pa", "ta.pi", "ˈpa.taˌki", "a", "t", "paː", "ła.ta", "ɬa.ta", "p#a", "ˈ", "sa.pa51"];
 
 fn g(rules: &[&str]) -> Vec<RuleGroup> { rules.iter().map(|r| RuleGroup { name: String::new(), rule: vec![r.to_string()], description: String::new() }).collect() }
 fn run(rules: &[RuleGroup], words: &[String]) -> Out<Result<Vec<String>, String>> {
@@ -89,7 +89,7 @@ fn check_rules(rule_texts: &[&str], a: &mut Acc) {
 pub fn run_check() -> i32 {
     let mut r = Report::new("C11");
     let thorough = r.thorough();
-    r.rule = "rule lists = every single rule (thorough: every ordered pair) of a 40-rule pool (alphas, variables, insertion, deletion, metathesis, tone, two that raise runtime errors); word lists = every ordered list of 1..3 words of a 10-word pool (two fail at parse, some fail at apply depending on the rule), which contains all their permutations and sublists; lines `u v` and `u v w` for all pool pairs/triples of succeeding words. Oracle: len(out) == len(in), out[i] == run(R,[W[i]])[0], a line is the single-word results joined by one space, a failing list fails with the error of its first failing word (within one phase). Non-trivial = list of >= 2 words.".into();
+    r.rule = "rule lists = every single rule (thorough: every ordered pair) of a 40-rule pool (alphas, variables, insertion, deletion, metathesis, tone, two that raise runtime errors); word lists = every ordered list of 1..3 words of an 11-word pool (two fail at parse, two are the same word in americanist and in plain IPA spelling, some fail at apply depending on the rule), which contains all their permutations and sublists; lines `u v` and `u v w` for all pool pairs/triples of succeeding words. Oracle: len(out) == len(in), out[i] == run(R,[W[i]])[0], a line is the single-word results joined by one space, a failing list fails with the error of its first failing word (within one phase). Non-trivial = list of >= 2 words.".into();
     r.assumptions.push("lists mixing parse-phase and apply-phase failures only have to fail (run parses all words before applying any rule; the statement does not rank the phases)".into());
     let mut jobs: Vec<Vec<&str>> = RULE_POOL.iter().map(|x| vec![*x]).collect();
     if thorough { for a in RULE_POOL { for b in RULE_POOL { jobs.push(vec![a, b]); } } }
